@@ -1821,6 +1821,15 @@ func (p *Parser) expect(kind TokenKind) {
 	// Handle >> splitting: when expecting >, accept >> and split it
 	if kind == TokenGreater && p.check(TokenGreaterGreater) {
 		p.splitGreaterGreater()
+		return
+	}
+	// Likewise >= and >>= directly after a template list (`vec2<f32>=...`)
+	if kind == TokenGreater && p.check(TokenGreaterEqual) {
+		p.splitGreaterEqual()
+		return
+	}
+	if kind == TokenGreater && p.check(TokenGreaterGreaterEqual) {
+		p.splitGreaterGreaterEqual()
 	}
 }
 
@@ -1832,6 +1841,15 @@ func (p *Parser) expectErr(kind TokenKind) *ParseError {
 	// Handle >> splitting: when expecting >, accept >> and split it
 	if kind == TokenGreater && p.check(TokenGreaterGreater) {
 		p.splitGreaterGreater()
+		return nil
+	}
+	// Likewise >= and >>= directly after a template list (`vec2<f32>=...`)
+	if kind == TokenGreater && p.check(TokenGreaterEqual) {
+		p.splitGreaterEqual()
+		return nil
+	}
+	if kind == TokenGreater && p.check(TokenGreaterGreaterEqual) {
+		p.splitGreaterGreaterEqual()
 		return nil
 	}
 	return &ParseError{
